@@ -150,9 +150,19 @@ func (p *Pool) runOne(w *worker, job Job) (Result, bool) {
 	}
 	ch := make(chan rd, 1)
 	var partial []Violation
+	var early *Result
 	go func() {
 		for {
 			line, err := w.out.ReadBytes('\n')
+			if err == nil && bytes.HasPrefix(line, []byte(`{"early_result":`)) {
+				var er struct {
+					R Result `json:"early_result"`
+				}
+				if json.Unmarshal(line, &er) == nil {
+					early = &er.R
+				}
+				continue
+			}
 			if err == nil && bytes.HasPrefix(line, []byte(`{"partial_violation":`)) {
 				var pv struct {
 					V Violation `json:"partial_violation"`
@@ -170,6 +180,12 @@ func (p *Pool) runOne(w *worker, job Job) (Result, bool) {
 	case r := <-ch:
 		if r.err != nil {
 			_ = w.cmd.Wait()
+			if early != nil {
+				// The verdict was complete; the process died while the system under test was being torn down.
+				early.ID = job.ID
+				early.Count("worker_crashes_during_teardown", 1)
+				return *early, false
+			}
 			// What the execution had already found before the system under test took the process down.
 			return Result{ID: job.ID, Crash: crashText(w.stderr.String()), Viol: partial}, false
 		}
@@ -324,8 +340,17 @@ func WorkerLoop(run func(Job) Result) {
 				_, _ = out.Write(append(b, '\n'))
 			}
 		}
+		earlySink = func(r Result) {
+			r.ID = job.ID
+			b, err := json.Marshal(struct {
+				R Result `json:"early_result"`
+			}{r})
+			if err == nil {
+				_, _ = out.Write(append(b, '\n'))
+			}
+		}
 		res := run(job)
-		partialSink = nil
+		partialSink, earlySink = nil, nil
 		res.ID = job.ID
 		b, err := json.Marshal(res)
 		if err != nil {
